@@ -52,6 +52,7 @@ type c06State struct {
 	dead     bool
 	dmlTags  []string
 	sentinel bool
+	btreeExtreme bool // a B-tree-indexed INT column received a value >= 2^31-65536 (only in sentinel cases)
 	longIdx  bool // strings of more than 900 bytes may be stored in indexed columns
 }
 
@@ -147,6 +148,9 @@ func (s *c06State) tagsFor(p *rm.Pred, cols []string) []string {
 	}
 	if s.longIdx {
 		tags["long-indexed-varchar"] = true
+	}
+	if s.btreeExtreme {
+		tags["btree-int-extreme"] = true
 	}
 	var out []string
 	for k := range tags {
@@ -369,6 +373,13 @@ func c06Run(env *core.Env, idx int) *core.CaseResult {
 			if s.idx[i] == "btree" && v.Null {
 				v = gen.Value(r, c.K, false, false)
 			}
+			if s.idx[i] == "btree" && gen.BtreeExtremeInt(v) {
+				if s.sentinel {
+					s.btreeExtreme = true
+				} else {
+					v = rm.Int(v.I - 70000)
+				}
+			}
 			row[i] = v
 		}
 		return row
@@ -552,6 +563,9 @@ func c06Run(env *core.Env, idx int) *core.CaseResult {
 						continue
 					}
 					if s.idx[j] != "" && len(v.S) > 900 && !s.longIdx {
+						continue
+					}
+					if s.idx[j] == "btree" && gen.BtreeExtremeInt(v) {
 						continue
 					}
 					if gen.LitAccepted(v) {
